@@ -283,9 +283,17 @@ func run(sc scenario) outcome {
 			rt.Flush()
 			stream = e.All()
 			// this run's traffic and sentinels only (see the note on abandoned pushers above)
-			out.received = bytes.Count(stream, []byte("\n"+mine)) + bytes.Count(stream, []byte(fmt.Sprintf("\nc06.sentinel.%d.", runSeq)))
-			if bytes.HasPrefix(stream, []byte(mine)) {
-				out.received++
+			out.received = 0
+			sentinel := []byte(fmt.Sprintf("c06.sentinel.%d.", runSeq))
+			for rest := stream; ; {
+				i := bytes.IndexByte(rest, '\n')
+				if i < 0 {
+					break // (an unterminated tail is still on its way)
+				}
+				if l := rest[:i]; bytes.HasPrefix(l, []byte(mine)) || bytes.HasPrefix(l, sentinel) {
+					out.received++
+				}
+				rest = rest[i+1:]
 			}
 			out.slowConn = counter(key, "unit=Metric.action=drop.reason=slow_conn") - slow0
 			out.connDown = counter(key, "unit=Metric.action=drop.reason=conn_down_no_spool") - down0
@@ -299,7 +307,16 @@ func run(sc scenario) outcome {
 			out.accountErr = fmt.Sprintf("endpoint up the whole time: %d lines handed, %d received, slow-connection drop counter moved by %d (conn_down %d): %d lines unaccounted for", total, out.received, out.slowConn, out.connDown, int64(total)-int64(out.received)-out.slowConn)
 		}
 		// every received line intact
-		for _, l := range bytes.Split(bytes.TrimSuffix(stream, []byte("\n")), []byte("\n")) {
+		complete := stream
+		if i := bytes.LastIndexByte(complete, '\n'); i >= 0 {
+			complete = complete[:i] // (an unterminated tail is still on its way)
+		} else {
+			complete = nil
+		}
+		for _, l := range bytes.Split(complete, []byte("\n")) {
+			if len(complete) == 0 {
+				break
+			}
 			if !bytes.HasPrefix(l, []byte("c06.")) || !bytes.HasSuffix(l, []byte(" 1 1500000000")) {
 				out.accountErr = fmt.Sprintf("received a mangled line %q", l)
 				break
